@@ -10,6 +10,22 @@ CHECKS = {
          "All operation sequences up to length 6 (quick) / 7 (thorough) over a 9-operation alphabet are run on the real har.Logger and compared step by step with a list model; 2-3 thread scenarios on colliding ids are run under the gosim scheduler with every interleaving of the logger's lock operations enumerated and each recorded history checked for linearizability against the same model.",
          "Scheduling points are synchronisation operations only (lock/atomic/channel); ids {a,b,c}; bodiless request/response shapes.",
          "exhaustive operation-sequence enumeration + stateless schedule enumeration (gosim) with linearizability oracle", "gosim", "DESIGN.md §7 C17"),
+ "C01": ("model_checking",
+         "Bounded-exhaustive enumeration of request sequences through the real proxy with its default http.Transport over in-memory connections (and a loopback-TCP re-run subset): request shapes (methods x target forms x header sets x body framings x sizes x write segmentations x HTTP versions), origin response shapes (statuses x framings x sizes x header sets x close), sequential and pipelined sequences up to length 2/3, concurrent connections; reference model = identity relay modulo hop-by-hop, evaluated on the bytes the origin received and the raw response stream the client parsed.",
+         "The transport's internal goroutine schedules run free (not explored); sizes up to 4 MiB; in-memory conn validated against loopback TCP on a subset.",
+         "bounded-exhaustive history/input enumeration against a reference model (worker subprocesses for crash attribution)", "enum", "DESIGN.md §7 C01"),
+ "C03": ("fault_enumeration",
+         "Every truncation offset of several origin response scripts (fresh and reused upstream connection, GET/POST), every dial outcome, every prefix of 20 non-HTTP origin answers and of 35 client byte streams plus one-byte corruptions of valid requests, each followed by a marker request on the same client connection; oracle from the statement (well-formed 502 + Warning seen by the response modifier, or detectably incomplete response then close; no bytes of response 2 inside response 1; connection usable after 502; proxy process alive).",
+         "Origins that stall without closing are not modelled; transport schedules run free.",
+         "exhaustive fault-point enumeration (truncation offsets, prefixes, corruptions) against a reference model", "enum", "DESIGN.md §7 C03"),
+ "C05": ("model_checking",
+         "All histories listener kind {plain, traffic-shaped, transparent TLS} x tunnel content {TLS, plaintext} x authority port x 1..2/3 requests x target form {origin-form, absolute http, absolute https, no Host} x hijack position/handle run once each through the real proxy with mitm.Config over loopback TCP and real crypto/tls; recording modifiers and a sniffing origin decide scheme, host, secure flag, TLS state identity (exported keying material), upstream TLS, session sharing and what a hijacker can exchange with the TLS client.",
+         "Sequential histories (no schedule exploration); Go's TLS stack only.",
+         "bounded-exhaustive history enumeration against a reference model", "enum", "DESIGN.md §7 C05"),
+ "C06": ("model_checking",
+         "Part 1: exhaustive host spellings (label pool x 1..3/4 labels, IPv4/IPv6 literals, ports, brackets) x SNI {absent, equal, different} x entry point, each chain verified with x509 against the CA, exact SAN, organisation, key possession, subset with a real TLS handshake. Part 2: all issue/request histories over clock shifts around the validity window on the virtual clock. Part 3: 2-3 concurrent requesters on empty/primed/expired caches, all interleavings of the cache lock operations under gosim.",
+         "x509 verification uses the real clock (time is shifted at issuance); unsynchronised accesses are not interleaved.",
+         "bounded-exhaustive input/history enumeration + stateless schedule enumeration (gosim, unbounded)", "gosim", "DESIGN.md §7 C06"),
  "C02": ("model_checking",
          "The real proxy.go/context.go run over simnet under the gosim scheduler with recording modifiers: plain mode with all modifier-behaviour sequences (pass, request error, response error, skip round trip, round-trip error, hijack in request/response modifier) up to length 2/3, blind CONNECT, MITM with plaintext and with TLS inside, optional second concurrent connection; every schedule with <=1 (quick) / <=2 (thorough) deviations; oracle from the recorded calls: exactly-once request/response modifier per exchange on the same request and context, unique context ids, session per connection, Warning surfacing, skip-round-trip, no context left retrievable (hook VerifLiveContexts), no proxy I/O after a hijack and prompt close.",
          "Round trips go through a synchronous harness RoundTripper; TLS is crypto/tls unmodified on simnet; deviation-bounded.",
